@@ -4,7 +4,7 @@
    prescribes (tuples by size then elements, lists by elements then length, bit strings by bytes then bit count, maps by
    size then keys then values) for all terms; that their elements in turn compare as Erlang orders them is, beyond the
    leaf theorems, the exhaustive pair check of the correspondence run against an exact Python reference. *)
-From EDP Require Import Base.Bytes Base.F64 Term.Term Gen.Ranks Order.Cmp Order.CmpFacts Order.CmpLaws Order.NumLaws Term.Value.
+From EDP Require Import Base.Bytes Base.F64 Term.Term Gen.Ranks Order.Cmp Order.CmpFacts Order.CmpLaws Order.NumLaws Order.Key Term.Value.
 
 (* Erlang: number < atom < reference < fun < port < pid < tuple < map < nil/list < bit string — both generated tables *)
 Definition spec_rank (t : term) : N :=
@@ -95,6 +95,13 @@ Proof.
   - revert m2. induction m1 as [|kv m1 IH]; intros [|kv2 m2]; try reflexivity. cbn [zipk map lex]. rewrite IH. unfold thn. destruct (cmp rank_owned (fst kv) (fst kv2)); reflexivity.
   - revert m2. induction m1 as [|kv m1 IH]; intros [|kv2 m2]; try reflexivity. cbn [zipv map lex]. rewrite IH. unfold thn. destruct (cmp rank_owned (snd kv) (snd kv2)); reflexivity.
 Qed.
+
+(* on terms without floats and improper lists the whole comparison, at any nesting depth, is the standard term order
+   written as one lexicographic order: type rank first (number < atom < reference < fun < port < pid < tuple < map < list
+   < bit string), numbers by value, atoms and binaries by their bytes, tuples and maps by size first, lists element-wise
+   with a proper prefix first, bit strings by bytes then bit count *)
+Theorem C12_standard_order_on_the_lawful_class : forall a b, tcl a -> tcl b -> cmp_owned a b = kcmp (tkey a) (tkey b).
+Proof. exact cmp_is_kcmp. Qed.
 
 Theorem C12_refuted_lossy_int_float :
   cmp_owned (TInt 9007199254740993) (TFloat 4845873199050653696) = Eq.      (* 2^53+1 vs 2^53.0: Erlang says Gt *)
